@@ -1382,3 +1382,107 @@ def rule_s14(ctx, rid: str, in_scope, consequence: str, expect_memoised: int = 0
     ctx.ob(rid, f"{len(mods)} module(s), {n} memoised function(s): none is keyed by a mutable argument", not hits, nontrivial=False,
            how="shared rule S14") if not hits else None
     ctx.require(n >= expect_memoised, f"{rid}: expected at least {expect_memoised} memoised function(s) in scope, found {n}")
+
+
+# ----------------------------------------------------------------------------------------------------------------- S15
+def scope_continuity_sites(repo, module: str = "onnx_ir.serde"):
+    """Shared rule S15: [(function, call, ok, why)] - inside a function that holds the stack of enclosing scopes (S2's stack
+    functions), every call that ends up deserializing a graph hands that very stack on.  A call to an entry point that starts
+    a *fresh* stack (`_deserialize_graph(proto, [])` behind `deserialize_graph`) cuts the nested graph off from the enclosing
+    scopes: the outer values it captures are re-created as detached values of the same name, so the use-def links across
+    scopes are lost although every name survives."""
+    m = repo.modules[module]
+    stack_of = scope_stack_functions(repo, module)
+    funcs = {f.key: f for f in m.all_funcs if not isinstance(f.node, ast.Lambda)}
+
+    def callee(f, n):
+        name = dotted_of(n.func)
+        return m.functions.get(name) if name else None
+
+    # functions that start a fresh stack: they hand a list display to a stack function's stack parameter
+    fresh: dict[str, str] = {}
+    for f in funcs.values():
+        if f.key in stack_of:
+            continue
+        for n in own_nodes(f.node):
+            if not isinstance(n, ast.Call):
+                continue
+            g = callee(f, n)
+            if g is None or g.key not in stack_of:
+                continue
+            p = stack_of[g.key]
+            i = g.params.index(p) if p in g.params else -1
+            a = n.args[i] if 0 <= i < len(n.args) else next((k.value for k in n.keywords if k.arg == p), None)
+            if isinstance(a, (ast.List, ast.Tuple)) or (isinstance(a, ast.Call) and dotted_of(a.func) in ("list", "collections.deque")):
+                fresh[f.key] = f"starts a fresh scope stack for {g.name}"
+    changed = True
+    while changed:
+        changed = False
+        for f in funcs.values():
+            if f.key in stack_of or f.key in fresh:
+                continue
+            for n in own_nodes(f.node):
+                if isinstance(n, ast.Call):
+                    g = callee(f, n)
+                    if g is not None and g.key in fresh:
+                        fresh[f.key] = f"calls {g.name}, which {fresh[g.key]}"
+                        changed = True
+                        break
+    out = []
+    for key, s in stack_of.items():
+        f = funcs.get(key)
+        if f is None:
+            continue
+        for n in own_nodes(f.node):
+            if not isinstance(n, ast.Call):
+                continue
+            g = callee(f, n)
+            if g is None:
+                continue
+            if g.key in stack_of:
+                p = stack_of[g.key]
+                i = g.params.index(p) if p in g.params else -1
+                a = n.args[i] if 0 <= i < len(n.args) else next((k.value for k in n.keywords if k.arg == p), None)
+                ok = a is not None and any(isinstance(x, ast.Name) and x.id == s for x in ast.walk(a))
+                out.append((f, n, ok, f"`{norm(n)[:60]}` passes `{norm(a) if a is not None else 'nothing'}` as the scope stack of {g.name}, not the caller's `{s}`"))
+            elif g.key in fresh:
+                out.append((f, n, False, f"`{norm(n)[:60]}` {fresh[g.key]} while the enclosing scopes are at hand in `{s}`"))
+    return out
+
+
+# ----------------------------------------------------------------------------------------------------------------- S16
+def identity_keyed_positions(repo, modules: set[str]):
+    """Shared rule S16: [(function, node, key variable, sibling, ok)] for every table keyed by `id(<loop variable>)`: the value stored
+    under the key depends on the object alone (a fresh lock, a property of the object) - never on a *position sibling* of the same
+    iteration (the other elements of a `zip`, the index of an `enumerate`): a sequence may hold one object at two positions (tied
+    weights), and a table keyed by identity keeps the data of the last position only."""
+    out = []
+    for m in repo.pkg_modules():
+        if m.name not in modules:
+            continue
+        for f in m.all_funcs:
+            if isinstance(f.node, ast.Lambda):
+                continue
+            for n in own_nodes(f.node):
+                key = val = None
+                gens = []
+                if isinstance(n, ast.DictComp):
+                    key, val, gens = n.key, n.value, [(g.target, g.iter) for g in n.generators]
+                elif isinstance(n, ast.Assign) and len(n.targets) == 1 and isinstance(n.targets[0], ast.Subscript):
+                    key, val = n.targets[0].slice, n.value
+                    p_ = getattr(n, "_parent", None)
+                    while p_ is not None and p_ is not f.node:
+                        if isinstance(p_, ast.For):
+                            gens.append((p_.target, p_.iter))
+                        p_ = getattr(p_, "_parent", None)
+                if not (isinstance(key, ast.Call) and dotted_of(key.func) == "id" and len(key.args) == 1 and isinstance(key.args[0], ast.Name)) or not gens:
+                    continue
+                kv = key.args[0].id
+                siblings = set()
+                for tgt, it in gens:
+                    names = [x.id for x in ast.walk(tgt) if isinstance(x, ast.Name)]
+                    if kv in names and len(names) > 1:
+                        siblings |= set(names) - {kv}
+                used = {x.id for x in ast.walk(val) if isinstance(x, ast.Name)} & siblings
+                out.append((f, n, kv, sorted(used), not used))
+    return out
